@@ -1,0 +1,51 @@
+//go:build verif
+
+// Exports for the external verification harness (where a compile error is
+// located).  Compiled only with -tags verif; adds no behaviour to normal
+// builds.
+
+package syntax
+
+import "errors"
+
+// VerifErrorLines returns the source line of every error contained in err:
+// for each leaf of the ErrorList tree the outermost location attached to it
+// (AstError node, wrapError location, the call of an inconsistent map call).
+// An error which carries no location at all is reported as line 0.
+func VerifErrorLines(err error) []int {
+	var out []int
+	var walk func(error)
+	walk = func(e error) {
+		switch e := e.(type) {
+		case nil:
+		case ErrorList:
+			for _, s := range e {
+				walk(s)
+			}
+		case *AstError:
+			if e.Node != nil {
+				out = append(out, e.Node.Loc.Line)
+			} else {
+				out = append(out, 0)
+			}
+		case *wrapError:
+			out = append(out, e.loc.Line)
+		case *InconsistentMapCallError:
+			if e.Call != nil {
+				out = append(out, e.Call.Node.Loc.Line)
+			} else {
+				out = append(out, 0)
+			}
+		case *ParseError:
+			out = append(out, e.loc.Line)
+		default:
+			if inner := errors.Unwrap(e); inner != nil {
+				walk(inner)
+			} else {
+				out = append(out, 0)
+			}
+		}
+	}
+	walk(err)
+	return out
+}
